@@ -270,6 +270,7 @@ vh::Outcome run_locks(const vh::Case& c, Prop prop) {
                         if constexpr (ordered) {
                             int ran = 0;
                             if (op.a & 1) { int rv = w.modify([&](Tracked& t) { ran++; vrt::fault_point(vrt::F_FUNCTOR); uint64_t r = t.read(); vrt::step(); t.set(r | bit); vrt::fault_point(vrt::F_FUNCTOR); return 7; }); if (rv != 7) vrt::fail("modify-result", "modify did not return the functor's value"); }
+                            else if (op.a & 2) w.modify([&](auto& t) -> void { ran++; vrt::fault_point(vrt::F_FUNCTOR); uint64_t r = t.read(); vrt::step(); t.set(r | bit); vrt::fault_point(vrt::F_FUNCTOR); });   // a generic callable (also invocable with const T&)
                             else w.modify([&](Tracked& t) { ran++; vrt::fault_point(vrt::F_FUNCTOR); uint64_t r = t.read(); vrt::step(); t.set(r | bit); vrt::fault_point(vrt::F_FUNCTOR); });
                             if (ran != 1) vrt::fail("functor-count", "modify() invoked the function " + std::to_string(ran) + " times");
                         }
